@@ -106,7 +106,7 @@ structure Solver (K : Type) (n p m : Nat) where
 
 section
 variable [Add K] [Sub K] [Mul K] [Div K] [Neg K] [Zero K] [One K] [LT K] [DecidableLT K] [LE K] [DecidableLE K]
-variable [NatCast K] [DecidableEq K]
+variable [NatCast K] [BEq K]
 variable {n p m : Nat}
 
 /-- `Settings::verify_settings` -/
@@ -280,16 +280,68 @@ def regResiduals (e : Env K n p m) (w0 : Work K n p m) (info1 : Info K) : Work K
   let rzu := d.ub.headUpd w0.r.z_ub fun i => w0.rz_ub_nr[i] - delta * (w0.nu_ub[i] - w0.z_ub[i])
   { w0 with r := { w0.r with x := rx, y := ry, z := rz, z_lb := rzl, z_ub := rzu } }
 
-/-- the two infeasibility rules -/
+/-- the two infeasibility rules, as functions of the scalars they depend on -/
+def primalInfeasRuleS (st : Settings K) (cs : Consts K) (info : Info K) (pprox pinfR : K) : Bool :=
+  decide ((min (5 : Int) st.regFinetuneDualThr) < (info.noDualUpdate : Int)) &&
+  decide (cs.c1e12 < pprox) &&
+  decide (pinfR < st.epsAbs + st.epsRel * info.primalRelInf)
+
+def dualInfeasRuleS (st : Settings K) (cs : Consts K) (info : Info K) (dprox dinfR : K) : Bool :=
+  decide ((min (5 : Int) st.regFinetunePrimalThr) < (info.noPrimalUpdate : Int)) &&
+  decide (cs.c1e12 < dprox) &&
+  decide (dinfR < st.epsAbs + st.epsRel * info.dualRelInf)
+
 def primalInfeasRule (e : Env K n p m) (w1 : Work K n p m) (info1 : Info K) : Bool :=
-  decide ((min (5 : Int) e.st.regFinetuneDualThr) < (info1.noDualUpdate : Int)) &&
-  decide (e.cs.c1e12 < primalProxInf e w1) &&
-  decide (primalInfR e w1 < e.st.epsAbs + e.st.epsRel * info1.primalRelInf)
+  primalInfeasRuleS e.st e.cs info1 (primalProxInf e w1) (primalInfR e w1)
 
 def dualInfeasRule (e : Env K n p m) (w1 : Work K n p m) (info1 : Info K) : Bool :=
-  decide ((min (5 : Int) e.st.regFinetunePrimalThr) < (info1.noPrimalUpdate : Int)) &&
-  decide (e.cs.c1e12 < dualProxInf e w1) &&
-  decide (dualInfR e w1 < e.st.epsAbs + e.st.epsRel * info1.dualRelInf)
+  dualInfeasRuleS e.st e.cs info1 (dualProxInf e w1) (dualInfR e w1)
+
+/-- the switch to the fine-tuning regularisation limit -/
+def finetuneSwitch (st : Settings K) (info1 : Info K) : Info K :=
+  let ft : Bool :=
+    (decide (st.regFinetunePrimalThr < (info1.noPrimalUpdate : Int)) && (info1.rho == info1.regLimit) &&
+       !(info1.regLimit == st.regFinetuneLowerLimit)) ||
+    (decide (st.regFinetuneDualThr < (info1.noDualUpdate : Int)) && (info1.delta == info1.regLimit) &&
+       !(info1.regLimit == st.regFinetuneLowerLimit))
+  if ft then { info1 with regLimit := st.regFinetuneLowerLimit, noPrimalUpdate := 0, noDualUpdate := 0 } else info1
+
+/-- `σ = clamp(sg / (μ·cnt), 0, 1)³` -/
+def sigmaOf (sg mu cnt : K) : K :=
+  let sg3 := sg / (mu * cnt)
+  let sg4 := vmax 0 (vmin 1 sg3)
+  sg4 * sg4 * sg4
+
+/-- regularisation update of the inequality branch as a function of the observed scalars.
+    Returns the new info and the two flags (`ζ ← x`, `(λ, ν) ← (y, z)`). -/
+def regUpdateIneq (st : Settings K) (cs : Consts K) (info2 : Info K) (muPrev mu dinfNr dprox pinfNr pprox : K) :
+    Info K × Bool × Bool :=
+  let muRate := vmax 0 ((muPrev - mu) / muPrev)
+  let condP := decide (dinfNr < cs.c0_95 * info2.dualInf) ||
+               ((info2.rho == st.regFinetuneLowerLimit) && decide (dprox < cs.c1e2))
+  let info3 : Info K :=
+    if condP then { info2 with rho := vmax info2.regLimit ((1 - muRate) * info2.rho) }
+    else { info2 with noPrimalUpdate := info2.noPrimalUpdate + 1,
+                      rho := vmax info2.regLimit ((1 - cs.c0_666 * muRate) * info2.rho) }
+  let condD := decide (pinfNr < cs.c0_95 * info3.primalInf) ||
+               ((info3.delta == st.regFinetuneLowerLimit) && decide (pprox < cs.c1e2))
+  let info4 : Info K :=
+    if condD then { info3 with delta := vmax info3.regLimit ((1 - muRate) * info3.delta) }
+    else { info3 with noDualUpdate := info3.noDualUpdate + 1,
+                      delta := vmax info3.regLimit ((1 - cs.c0_666 * muRate) * info3.delta) }
+  (info4, condP, condD)
+
+/-- regularisation update when there are no inequality constraints -/
+def regUpdateEq (cs : Consts K) (info2 : Info K) (dinfNr pinfNr : K) : Info K × Bool × Bool :=
+  let condP := decide (dinfNr < cs.c0_95 * info2.dualInf)
+  let info3 : Info K :=
+    if condP then { info2 with rho := vmax info2.regLimit (cs.c0_1 * info2.rho) }
+    else { info2 with noPrimalUpdate := info2.noPrimalUpdate + 1, rho := vmax info2.regLimit (cs.c0_5 * info2.rho) }
+  let condD := decide (pinfNr < cs.c0_95 * info3.primalInf)
+  let info4 : Info K :=
+    if condD then { info3 with delta := vmax info3.regLimit (cs.c0_1 * info3.delta) }
+    else { info3 with noDualUpdate := info3.noDualUpdate + 1, delta := vmax info3.regLimit (cs.c0_5 * info3.delta) }
+  (info4, condP, condD)
 
 /-- phase A: loop head up to the infeasibility tests.  `none` = continue with the body.
     (`iter0` : the residuals are recomputed when `iter = 0`.) -/
@@ -318,20 +370,17 @@ def phaseB (e : Env K n p m) (refineOn : Bool) (w : Work K n p m) (info0 : Info 
   let zu1 := if shiftU then d.ub.headUpd w.z_ub fun i => w.z_ub[i] + eps else w.z_ub
   let w1 : Work K n p m := { w with z := z1, z_lb := zl1, z_ub := zu1 }
   let info1 := if shiftZ || shiftL || shiftU then { info0 with mu := muOf d w1 } else info0
-  let ft : Bool :=
-    (decide (st.regFinetunePrimalThr < (info1.noPrimalUpdate : Int)) && decide (info1.rho = info1.regLimit) &&
-       decide (info1.regLimit ≠ st.regFinetuneLowerLimit)) ||
-    (decide (st.regFinetuneDualThr < (info1.noDualUpdate : Int)) && decide (info1.delta = info1.regLimit) &&
-       decide (info1.regLimit ≠ st.regFinetuneLowerLimit))
-  let info2 := if ft then { info1 with regLimit := st.regFinetuneLowerLimit, noPrimalUpdate := 0, noDualUpdate := 0 } else info1
+  let info2 := finetuneSwitch st info1
   let k1 := kktScal e kkt w1 info2.rho info2.delta
   let k2 := KKT.regFactor e.be st.kkt d k1 refineOn e.inner
   (w1, info2, k2)
 
 /-- what a failed factorisation does to ρ, δ and the regularisation limit -/
-def bumpReg (e : Env K n p m) (info : Info K) : Info K :=
-  { info with delta := info.delta * e.cs.c100, rho := info.rho * e.cs.c100,
-              regLimit := vmin (e.cs.c10 * info.regLimit) e.st.epsAbs }
+def bumpRegS (st : Settings K) (cs : Consts K) (info : Info K) : Info K :=
+  { info with delta := info.delta * cs.c100, rho := info.rho * cs.c100,
+              regLimit := vmin (cs.c10 * info.regLimit) st.epsAbs }
+
+def bumpReg (e : Env K n p m) (info : Info K) : Info K := bumpRegS e.st e.cs info
 
 /-- phase C: predictor/corrector (or the full step when there are no inequalities), iterate update and
     regularisation update. -/
@@ -359,9 +408,7 @@ def phaseC (e : Env K n p m) (refineOn : Bool) (kkt : KKT K n p m) (w : Work K n
     let sg0 := sumFin m (fun i => (w.s[i] + alphaS * d1.s[i]) * (w.z[i] + alphaZ * d1.z[i]))
     let sg1 := sg0 + sumFin n (fun i => if i.val < nl then (w.s_lb[i] + alphaS * d1.s_lb[i]) * (w.z_lb[i] + alphaZ * d1.z_lb[i]) else 0)
     let sg2 := sg1 + sumFin n (fun i => if i.val < nu then (w.s_ub[i] + alphaS * d1.s_ub[i]) * (w.z_ub[i] + alphaZ * d1.z_ub[i]) else 0)
-    let sg3 := sg2 / (info.mu * ((m + nl + nu : Nat) : K))
-    let sg4 := vmax 0 (vmin 1 sg3)
-    let sigma := sg4 * sg4 * sg4
+    let sigma := sigmaOf sg2 info.mu ((m + nl + nu : Nat) : K)
     -- corrector
     let rs2 : Vec K m := Vector.ofFn fun i => rs[i] + (-d1.s[i] * d1.z[i] + sigma * info.mu)
     let rsl2 := d.lb.headUpd rsl fun i => rsl[i] + (-d1.s_lb[i] * d1.z_lb[i] + sigma * info.mu)
@@ -383,28 +430,18 @@ def phaseC (e : Env K n p m) (refineOn : Bool) (kkt : KKT K n p m) (w : Work K n
                s_ub := d.ub.headUpd w.s_ub fun i => w.s_ub[i] + pstep * d2.s_ub[i] }
     let muPrev := info.mu
     let mu := muOf d w1
-    let muRate := vmax 0 ((muPrev - mu) / muPrev)
     let info1 := { info with sigma := sigma, primalStep := pstep, dualStep := dstep, mu := mu }
     let (w2, info2) := updateNrResiduals e w1 info1
     -- update regularisation
-    let condP := decide (dualInfNr e w2 < cs.c0_95 * info2.dualInf) ||
-                 (decide (info2.rho = st.regFinetuneLowerLimit) && decide (dualProxInf e w2 < cs.c1e2))
-    let (w3, info3) :=
-      if condP then
-        (({ w2 with zeta := w2.x } : Work K n p m), { info2 with rho := vmax info2.regLimit ((1 - muRate) * info2.rho) })
-      else
-        (w2, { info2 with noPrimalUpdate := info2.noPrimalUpdate + 1,
-                          rho := vmax info2.regLimit ((1 - cs.c0_666 * muRate) * info2.rho) })
-    let condD := decide (primalInfNr e w3 < cs.c0_95 * info3.primalInf) ||
-                 (decide (info3.delta = st.regFinetuneLowerLimit) && decide (primalProxInf e w3 < cs.c1e2))
-    if condD then
-      (({ w3 with lambda := w3.y, nu := w3.z,
+    let ru := regUpdateIneq st cs info2 muPrev mu (dualInfNr e w2) (dualProxInf e w2) (primalInfNr e w2) (primalProxInf e w2)
+    let w3 : Work K n p m := if ru.2.1 then { w2 with zeta := w2.x } else w2
+    let w4 : Work K n p m :=
+      if ru.2.2 then
+        { w3 with lambda := w3.y, nu := w3.z,
                   nu_lb := d.lb.headUpd w3.nu_lb fun i => w3.z_lb[i],
-                  nu_ub := d.ub.headUpd w3.nu_ub fun i => w3.z_ub[i] } : Work K n p m),
-       { info3 with delta := vmax info3.regLimit ((1 - muRate) * info3.delta) })
-    else
-      (w3, { info3 with noDualUpdate := info3.noDualUpdate + 1,
-                        delta := vmax info3.regLimit ((1 - cs.c0_666 * muRate) * info3.delta) })
+                  nu_ub := d.ub.headUpd w3.nu_ub fun i => w3.z_ub[i] }
+      else w3
+    (w4, ru.1)
   else
     let d1 := solve w.r w.d
     let w1 : Work K n p m :=
@@ -413,15 +450,10 @@ def phaseC (e : Env K n p m) (refineOn : Bool) (kkt : KKT K n p m) (w : Work K n
                y := Vector.ofFn fun i => w.y[i] + 1 * d1.y[i] }
     let info1 := { info with primalStep := 1, dualStep := 1 }
     let (w2, info2) := updateNrResiduals e w1 info1
-    let (w3, info3) :=
-      if dualInfNr e w2 < cs.c0_95 * info2.dualInf then
-        (({ w2 with zeta := w2.x } : Work K n p m), { info2 with rho := vmax info2.regLimit (cs.c0_1 * info2.rho) })
-      else
-        (w2, { info2 with noPrimalUpdate := info2.noPrimalUpdate + 1, rho := vmax info2.regLimit (cs.c0_5 * info2.rho) })
-    if primalInfNr e w3 < cs.c0_95 * info3.primalInf then
-      (({ w3 with lambda := w3.y } : Work K n p m), { info3 with delta := vmax info3.regLimit (cs.c0_1 * info3.delta) })
-    else
-      (w3, { info3 with noDualUpdate := info3.noDualUpdate + 1, delta := vmax info3.regLimit (cs.c0_5 * info3.delta) })
+    let ru := regUpdateEq cs info2 (dualInfNr e w2) (primalInfNr e w2)
+    let w3 : Work K n p m := if ru.2.1 then { w2 with zeta := w2.x } else w2
+    let w4 : Work K n p m := if ru.2.2 then { w3 with lambda := w3.y } else w3
+    (w4, ru.1)
 
 /-- termination measure of the main loop -/
 def loopMeasure (maxIter maxRetries : Nat) (c : Ctrl) : Nat × Nat × Nat :=
